@@ -43,11 +43,12 @@ CONSTANTS
   DieAt <- MDie
   Assign <- {Assign}
   Ret <- MRet
+  MergerDies = {MergerDies}
   RecSt = "{RecSt}"
   RecNrec = {RecNrec}
 CHECK_DEADLOCK TRUE
 """
-SAFETY = ["ExactlyOnce", "ResultIsWholeStream", "RaiseKeepsOthers", "DeathNeverReturns", "QueueBounded"]
+SAFETY = ["ExactlyOnce", "ResultIsWholeStream", "RaiseKeepsOthers", "DeathNeverReturns", "MergerDeathNeverReturns", "QueueBounded"]
 
 
 def fault_of(sel, K):
@@ -61,14 +62,14 @@ def die_name(die):
     return "NoDie" if die is None else "Die%d%d" % die
 
 
-def model_check(report, N, K, fault_sel, die, liveness=True, outcomes=False, tag="pa"):
+def model_check(report, N, K, fault_sel, die, liveness=True, outcomes=False, tag="pa", merger_dies=0):
     """Safety (+ liveness under weak fairness) of one scenario; optionally the terminal outcomes."""
     base = CFG.format(spec="FairSpec" if liveness else "Spec", N=N, K=K, FaultSel=fault_sel, Die=die_name(die),
-                      Assign="NoAssign", RecSt="none", RecNrec=0)
+                      Assign="NoAssign", RecSt="none", RecNrec=0, MergerDies=merger_dies)
     invs = list(SAFETY) + (["TerminalOutcome"] if outcomes else [])
     cfg = write_cfg("pa_%s.cfg" % tag, base, invs, ["Termination"] if liveness else [])
     r = run_tlc("MC_ParallelAdd", cfg, workers=16, tag=tag)
-    inst = "ParallelAdd N=%d K=%d faults=%s die=%s liveness=%s" % (N, K, fault_sel, die, liveness)
+    inst = "ParallelAdd N=%d K=%d faults=%s die=%s merger_dies=%s liveness=%s" % (N, K, fault_sel, die, merger_dies, liveness)
     report.add_tlc("MC_ParallelAdd", r, inst)
     if not r.ok:
         report.violation("model: %s %s violated on %s" % (r.kind, r.violated, inst),
@@ -219,7 +220,7 @@ class Batch:
         return ok
 
 
-def replay_outcome(report, N, K, fault_sel, die, out, rng, which, batch):
+def replay_outcome(report, N, K, fault_sel, die, out, rng, which, batch, kill_merger=0):
     """Replay one terminal outcome of the specification against the real code."""
     faults = fault_of(fault_sel, K)
     items = make_items(K, faults, rng)
@@ -245,13 +246,13 @@ def replay_outcome(report, N, K, fault_sel, die, out, rng, which, batch):
             cms_args=cms_args if "cms" in which else None,
             hh_args=dict(HH_ARGS) if "hh" in which else None,
             hll_args=dict(HLL_ARGS) if "hll" in which else None, assign=assign,
-            sched_seed=sseed,
+            sched_seed=sseed, kill_merger=kill_merger,
             tag="tag-%d" % len(which), expect=len(which))
     finally:
         fakemp.Sched.__init__ = old_init
         padd_cb.CTL = None
     scen = {"N": N, "K": K, "faults": {str(k): v for k, v in faults.items() if v != "ok"}, "die": die,
-            "assign": out["assign"], "sketches": sorted(which), "scheduler_seed": sseed, "late_death": late, "cms_is_log8": cms_log}
+            "assign": out["assign"], "sketches": sorted(which), "scheduler_seed": sseed, "late_death": late, "cms_is_log8": cms_log, "merger_killed": kill_merger}
     report.count_action("replay:" + out["st"])
 
     def bad(msg):
@@ -396,7 +397,7 @@ def validate_real(report, run, batch, tag):
     nrec = nrecs.pop() if nrecs else sum(it["ret"] for it in items if it["fault"] == "ok")
     mod = "MCgen_%s" % tag
     base = CFG.format(spec="Spec", N=N, K=K, FaultSel=run["fault_sel"], Die="NoDie", Assign="RecAssign",
-                      RecSt="returned", RecNrec=nrec)
+                      RecSt="returned", RecNrec=nrec, MergerDies=0)
     # the recorded assignment enters as a definition of a generated root module
     with open(os.path.join(common.SPEC, mod + ".tla"), "w") as f:
         f.write("---- MODULE %s ----\nEXTENDS MC_ParallelAdd\nRecAssign == <<%s>>\n====\n" % (mod, ", ".join(map(str, assign))))
